@@ -973,7 +973,7 @@ fn gen_rankdef(rng: &mut StdRng, m: usize, n: usize, r: usize) -> Option<(IM, Ce
 /// returned Ok with NaN rows in f32 below a scale of 2^-37 (subnormal Householder row norm in
 /// svd_mut; repaired by commit 855218f): u * [1,-2,2,-1] with u = [2,-2,-2,2,1,2,-1].  The others
 /// are siblings of rank 1 and 2 in the shapes 7x4, 5x5 and 4x7, and the 6x5 rank-1 input of the
-/// known finding "f32, nullity >= 3" (NaN in V at every scale).
+/// known finding "f32, nullity >= 4" (NaN in V at every scale).
 fn fixed_rankdef() -> Vec<(IM, Cert, IM, Vec<usize>)> {
     let col = |v: &[i64]| -> IM { v.iter().map(|&x| vec![x]).collect() };
     let specs: Vec<(IM, IM, Vec<usize>)> = vec![
